@@ -548,6 +548,20 @@ func c03ErrorDiscipline(c *Ctx, r *Report) {
 						continue
 					}
 					if ph, isPhi := ref.(*ssa.Phi); isPhi {
+						// merged into a result variable next to the error (`return f()` of an inlined
+						// helper): the uses of the merged value count
+						if pairedWithError(ph, bytesV, errV) {
+							for _, r2 := range *ph.Referrers() {
+								if _, isDbg := r2.(*ssa.DebugRef); isDbg {
+									continue
+								}
+								if !onSuccessEdge(call, r2.Block()) {
+									ok2 = false
+									why = "the marshalled bytes are used at " + posOf(c, r2) + " although marshalling may have failed: an empty or partial payload is written"
+								}
+							}
+							continue
+						}
 						// a use through a phi happens on the incoming edge: its source block must be on the success edge
 						okPhi := true
 						for i, e := range ph.Edges {
@@ -741,4 +755,34 @@ func condPos(c *Ctx, t *ssa.If) string {
 		return c.rel(ins.Pos())
 	}
 	return posOf(c, t)
+}
+
+// pairedWithError: phi merges `val` on exactly the edges on which a sibling phi
+// of the same block merges `errV`.
+func pairedWithError(ph *ssa.Phi, val, errV ssa.Value) bool {
+	if errV == nil {
+		return false
+	}
+	for _, ins := range ph.Block().Instrs {
+		sib, ok := ins.(*ssa.Phi)
+		if !ok {
+			break
+		}
+		if sib == ph || len(sib.Edges) != len(ph.Edges) {
+			continue
+		}
+		match, any := true, false
+		for i := range ph.Edges {
+			if (ph.Edges[i] == val) != (sib.Edges[i] == errV) {
+				match = false
+			}
+			if ph.Edges[i] == val {
+				any = true
+			}
+		}
+		if match && any {
+			return true
+		}
+	}
+	return false
 }
